@@ -140,6 +140,28 @@ fn run_case(c: &Case, acc: &mut Acc) -> R {
 // the back ends' private streaming writers (digest / MAC / signature adapters) must receive the
 // same byte sequence: observable as MAC / signature over the reference PAE for pieces of every size
 
+/// failing unseal calls (wrong key, then a corrupted tag / signature) on back end B, on this thread
+fn rejected_operations_first<B: crate::backends::Backend>(n: u8) {
+    use crate::backends::*;
+    use paseto_core::tokens::{SealedToken, UnsealedToken};
+    use paseto_core::validation::NoValidation;
+    use paseto_core::version::{Local, Public};
+    let ks = KeySeed::from_u64(0x15a);
+    let other = KeySeed::from_u64(0x15b);
+    let msg = vec![0x5au8; 300];
+    for round in 0..n {
+        if let Ok(t) = UnsealedToken::<V<B>, Public, Raw>::new(Raw(msg.clone())).with_footer(vec![round; 40]).seal(&secret_key::<B>(&ks), &[]) {
+            let wrong = secret_key::<B>(&other).public_key();
+            let r = t.to_string().parse::<SealedToken<V<B>, Public, Raw, Vec<u8>>>().and_then(|t| t.unseal(&wrong, &[], &NoValidation::dangerous_no_validation()));
+            debug_assert!(r.is_err());
+        }
+        if let Ok(t) = UnsealedToken::<V<B>, Local, Raw>::new(Raw(msg.clone())).with_footer(vec![round; 40]).seal(&local_key::<B>(&ks), &[]) {
+            let r = t.to_string().parse::<SealedToken<V<B>, Local, Raw, Vec<u8>>>().and_then(|t| t.unseal(&local_key::<B>(&other), &[], &NoValidation::dangerous_no_validation()));
+            debug_assert!(r.is_err());
+        }
+    }
+}
+
 fn writers_for<B: crate::backends::Backend>(out: &mut Vec<SubCheck>) {
     use crate::backends::KeySeed;
     use crate::gens::BytesSpec;
@@ -160,14 +182,22 @@ fn writers_for<B: crate::backends::Backend>(out: &mut Vec<SubCheck>) {
             let has_i = B::VER.has_assertion();
             // the header piece is passed as three fragments (version, payload-encoding suffix, purpose):
             // a third of the cases use a payload type with a non-empty suffix so that their order matters
-            (any::<u64>(), piece(), piece(), piece(), any::<u32>(), any::<bool>(), prop::bool::weighted(0.35)).prop_map(move |(k, msg, footer, assertion, n, public, suffix)| {
+            (any::<u64>(), piece(), piece(), piece(), any::<u32>(), (any::<bool>(), 0u8..4), prop::bool::weighted(0.35)).prop_map(move |(k, msg, footer, assertion, n, (public, before), suffix)| {
                 let assertion = if has_i { assertion } else { BytesSpec::empty() };
-                (public, LCase { suffix, key: KeySeed::from_u64(k), msg: msg.clone(), footer: footer.clone(), assertion: assertion.clone(), nonce: NonceKind::Seed(n) }, PCase { suffix, key_variant: 0, key: KeySeed::from_u64(k), msg, footer, assertion, signer: (n % 3) as u8 })
+                ((public, before), LCase { suffix, key: KeySeed::from_u64(k), msg: msg.clone(), footer: footer.clone(), assertion: assertion.clone(), nonce: NonceKind::Seed(n) }, PCase { suffix, key_variant: 0, key: KeySeed::from_u64(k), msg, footer, assertion, signer: (n % 3) as u8 })
             })
         },
-        move |c: &(bool, LCase, PCase), acc: &mut Acc| {
+        move |c: &((bool, u8), LCase, PCase), acc: &mut Acc| {
             crate::rng::reseed_case(hash_of(&c.1.key));
-            if c.0 { relabel(c03::public_case::<B>(&c.2, acc)) } else { relabel(c03::local_case::<B>(&c.1, acc)) }
+            // a writer must start empty whatever happened before on this thread: half of the cases are
+            // preceded by rejected verifications / decryptions on the same back end
+            if c.0.1 >= 2 {
+                rejected_operations_first::<B>(c.0.1);
+                acc.class("history:after-rejected-operations");
+            } else {
+                acc.class("history:fresh");
+            }
+            if c.0.0 { relabel(c03::public_case::<B>(&c.2, acc)) } else { relabel(c03::local_case::<B>(&c.1, acc)) }
         },
     ));
 }
@@ -178,7 +208,7 @@ pub fn def() -> PropertyDef {
     PropertyDef {
         id: "C15",
         level: "exploration",
-        rule: "proptest cases: piece count 0..8 (one const-generic instantiation per N) x 0..4 fragments per piece x fragment lengths 0..600; oracle: output equals the reference PAE of the concatenated pieces, the reference PAE parser recovers exactly the piece list (injectivity), a recording streaming writer and the &mut adapter receive the same bytes, re-fragmenting does not change the output, and moving 1-3 bytes across a piece boundary always changes it; the back ends' private digest / MAC / signature writer adapters are exercised through tokens whose message, footer and assertion have every length 0..700, with and without a payload-encoding suffix in the fragmented header piece: the tag / signature must be the one over the reference PAE (bit-exact token, independent verifier, sibling acceptance). Non-trivial iff >= 2 pieces with a multi-fragment piece, or a boundary-shift pair was checked",
+        rule: "proptest cases: piece count 0..8 (one const-generic instantiation per N) x 0..4 fragments per piece x fragment lengths 0..600; oracle: output equals the reference PAE of the concatenated pieces, the reference PAE parser recovers exactly the piece list (injectivity), a recording streaming writer and the &mut adapter receive the same bytes, re-fragmenting does not change the output, and moving 1-3 bytes across a piece boundary always changes it; the back ends' private digest / MAC / signature writer adapters are exercised through tokens whose message, footer and assertion have every length 0..700, with and without a payload-encoding suffix in the fragmented header piece, on a fresh thread state and after rejected operations on the same thread: the tag / signature must be the one over the reference PAE (bit-exact token, independent verifier, sibling acceptance). Non-trivial iff >= 2 pieces with a multi-fragment piece, or a boundary-shift pair was checked",
         assumptions: vec!["the back ends' writer adapters are private: they are observed through the MAC / signature they produce"],
         subs,
     }
